@@ -606,6 +606,11 @@ func (r *checkRun) report() int {
 		cov["static_checks"] = st
 	}
 	assumptions := append(sortedSet(r.notes), r.prop.Assumes...)
+	// what the run trusts (library contracts, assumed contracts, generator and solvers) is also listed under
+	// "assumptions", the schema's place for "what the check assumes or trusts"
+	for _, t := range cov["trusted_base"].([]string) {
+		assumptions = append(assumptions, "trusted: "+t)
+	}
 	r.writeEvidence(cov, violations, assumptions)
 	for _, l := range lines {
 		fmt.Println(l)
